@@ -155,8 +155,8 @@ func (s *sessionSpec) session() *expect.Session {
 
 func Run(cfg fw.Config, rec *fw.Rec) {
 	log.SetOutput(io.Discard)
-	rec.Rule = "sessions of 1-3 steps, 0-3 expected outputs per step over 6 patterns, inverted outputs, guards {none, accept, reject, accept-if}, run with /bin/cat as the subprocess so that the emitted stream is exactly the session's inputs (duplicates of one expected message while another never arrives, never-arriving messages with 120 ms timeouts, non-JSON noise, messages and noise lines of 4080-70000 bytes around the 4096-byte buffer boundaries); a third of the passing sessions are run a second time - their outputs now carry recorded bindings - on a stream that meets no expectation and must fail; oracle: Run()==nil implies the reference window model justifies a pass under some resolution; non-trivial = session with >= 2 expected outputs in some step that the tool passed, or any session the tool failed; distinct by session"
-	rec.Required = []string{"tool_passed_and_justified", "tool_failed", "family_duplicate_instead_of_other", "family_rejecting_guard", "family_inverted", "family_never_arrives", "family_noise", "family_long_lines", "rerun_with_recorded_bindings_failed_as_it_must", "rerun_with_bindings_on_an_inverted_output_failed_as_it_must"}
+	rec.Rule = "sessions of 1-3 steps, 0-3 expected outputs per step over 6 patterns, inverted outputs, guards {none, accept, reject, accept-if}, run with /bin/cat as the subprocess so that the emitted stream is exactly the session's inputs (duplicates of one expected message while another never arrives, never-arriving messages with 120 ms timeouts, non-JSON noise, messages and noise lines of 4080-70000 bytes around the 4096-byte buffer boundaries; patterns whose source is a JSON string literal ('42', 'true', '[1]', ...), numbers, booleans, arrays against streams of such scalars and their string look-alikes); a third of the passing sessions are run a second time - their outputs now carry recorded bindings - on a stream that meets no expectation and must fail; oracle: Run()==nil implies the reference window model justifies a pass under some resolution; non-trivial = session with >= 2 expected outputs in some step that the tool passed, or any session the tool failed; distinct by session"
+	rec.Required = []string{"tool_passed_and_justified", "tool_failed", "family_duplicate_instead_of_other", "family_rejecting_guard", "family_inverted", "family_never_arrives", "family_noise", "family_long_lines", "family_scalar_patterns", "rerun_with_recorded_bindings_failed_as_it_must", "rerun_with_bindings_on_an_inverted_output_failed_as_it_must"}
 	rec.Assume = []string{"slowness can only turn a pass into a timeout failure, never the reverse, so load cannot cause a false alarm", "the reference is at least as permissive as the documentation: windows may extend into later steps' lines, a step without positive expectations may or may not consume a line"}
 	n := cfg.Pick(1500, 20000)
 	fw.Parallel(cfg.Workers, n, func(w, i int) {
@@ -166,6 +166,9 @@ func Run(cfg fw.Config, rec *fw.Rec) {
 		fam := i % 6
 		if fam == 4 && i%12 != 4 {
 			fam = 5 // random
+			if i%12 == 10 {
+				fam = 6
+			}
 		}
 		switch fam {
 		case 0:
@@ -201,6 +204,27 @@ func Run(cfg fw.Config, rec *fw.Rec) {
 			if r.Intn(2) == 0 {
 				s.Steps[0].Inputs = []string{`{"a":1}`, `{"b":2}`}
 				s.Steps[0].Outputs = []outSpec{{Pattern: `{"a":"?x","more":"??m","evenmore":"??n"}`, Guard: "none"}, {Pattern: `{"b":"?y","opt":"??o"}`, Guard: "none"}}
+			}
+		case 6:
+			// patterns and messages that are not objects: a pattern whose source is a JSON
+			// string literal is that string, whatever the string's content looks like
+			family = "scalar_patterns"
+			sp := []string{`"42"`, `"true"`, `"null"`, `"[1]"`, `"\"x\""`, `"{\"a\":1}"`, `"done"`, `42`, `true`, `[1]`}
+			sl := []string{`42`, `"42"`, `true`, `"true"`, `null`, `"null"`, `[1]`, `"[1]"`, `"x"`, `"\"x\""`, `{"a":1}`, `"{\"a\":1}"`, `"done"`, `{"status":"starting"}`, `noise`}
+			ns := 1 + r.Intn(2)
+			for k := 0; k < ns; k++ {
+				st := stepSpec{Inputs: []string{`{"status":"starting"}`}}
+				for j := 1 + r.Intn(4); j > 0; j-- {
+					st.Inputs = append(st.Inputs, sl[r.Intn(len(sl))])
+				}
+				for j := 1 + r.Intn(2); j > 0; j-- {
+					o := outSpec{Pattern: sp[r.Intn(len(sp))], Guard: "none"}
+					if r.Intn(4) == 0 {
+						o.Inverted = true
+					}
+					st.Outputs = append(st.Outputs, o)
+				}
+				s.Steps = append(s.Steps, st)
 			}
 		case 3:
 			// lines longer than a reader's buffer (4096 bytes is bufio's default): a long
